@@ -333,10 +333,16 @@ def run_shard(spec):
         if case.outcome[0] != "ok" or case.outcome[1] is None:
             continue
         pep = case.machine.pep
-        pep.list_of_constraints = []                 # drops initial conditions and boxes: no finite optimum any more
         from PEPit.function import Function
-        for f_ in Function.list_of_functions:
-            f_.list_of_constraints = [c for c in f_.list_of_constraints if "inexact" in str(c.get_name()) or "linesearch" in str(c.get_name())]
+        if rng.random() < 0.35:
+            # the list of performance metrics is emptied (a documented attribute, the suite itself overwrites it): nothing
+            # bounds the objective any more
+            pep.list_of_performance_metrics = []
+            counters["resolves_without_metric"] = counters.get("resolves_without_metric", 0) + 1
+        else:
+            pep.list_of_constraints = []                 # drops initial conditions and boxes: no finite optimum any more
+            for f_ in Function.list_of_functions:
+                f_.list_of_constraints = [c for c in f_.list_of_constraints if "inexact" in str(c.get_name()) or "linesearch" in str(c.get_name())]
         n0 = len(bd.records)
         with contextlib.redirect_stdout(io.StringIO()):
             out = case.machine.do_solve({"verbose": 0, "solver": "CLARABEL"})
